@@ -11,6 +11,7 @@ mod pkt;
 mod props;
 mod rt;
 mod sha256;
+mod tcpref;
 
 use rt::Tier;
 
